@@ -286,6 +286,8 @@ def warm_vs_fresh(seed, npairs, nperm):
         stores = ["dict_set", "list_append", "attr_set", "from_base", "update", "reset_list"]
         a = rnd.choice(stores) if rnd.random() < 0.6 else rnd.choice(ACTIONS)
         vi = rnd.choice(ambiguous) if rnd.random() < 0.55 else rnd.randrange(len(pool))
+        if k % 5 == 0:
+            vi = names_.index("Hybrid")          # a value matching several categories, probed regularly
         hist = [(rnd.choice(ACTIONS), rnd.randrange(len(pool))) for _ in range(rnd.randint(1, 6))]
         # histories that make the same backend convert a plain list and a plain dict first
         hist.insert(rnd.randrange(len(hist) + 1), (rnd.choice(stores[:5]), names_.index(rnd.choice(["list", "tuple", "list2"]))))
